@@ -19,11 +19,11 @@ Reading guide.
                 statement vacuous; instead two different accepted responses *yield a collision of H*.
                 The encoders of `L` are assumed injective (they are encoders).
 * `…_unbound` : what is **not** bound, as theorems about the model (the code as it exists):
-                `Block.Size` (documented in core.go:569), the encoding of the metas, the last
+                `Block.Size` (documented in core.go:572), the encoding of the metas, the last
                 commit's `Round` (KNOWN FINDING `accepted-lastcommit-round`: binding it needs the
                 verification of the commit signatures; `Height` and `BlockID` were unbound too until
                 the repair 8acc1f7 and are bound now for non-empty commits), all results at the latest trusted
-                height (documented TODO, core.go:600), result events/log/info/codespace, validator
+                height (documented TODO, core.go:613), result events/log/info/codespace, validator
                 address/priority/proposer, the evidence/validator/version sections of the CometBFT
                 parameters (CometBFT hashes only `BlockMaxBytes`/`BlockMaxGas`), and a proof's `index`
                 when its `total` is not the length of the list.
@@ -186,41 +186,10 @@ theorem proof_index_unbound_without_total (H : Bytes → Bytes) (a b c : Bytes) 
 
 /-! ## verifyBlock -/
 
-/-- `verifyBlock` accepts exactly the blocks that satisfy the executable specification. -/
-theorem block_spec_iff [DecidableEq Sig] (L : Lib Sig Ev P) (H : Bytes → Bytes) (b : Block) (lb : Header) :
-    verifyBlock L H b lb = .ok ↔ blockSpec L H b lb = true := by
-  unfold verifyBlock blockSpec
-  generalize lb.height - 1 = prev
-  cases hb : b.stateRoot with
-  | mk ns version type hash =>
-  by_cases h1 : b.height = lb.height; rotate_left; · simp [h1]
-  by_cases h2 : b.hash = L.headerHash lb; rotate_left; · simp [h1, h2]
-  by_cases h3 : b.time = lb.time.truncSec; rotate_left; · simp [h1, h2, h3]
-  by_cases h4 : ns = zeroNamespace; rotate_left; · simp [h1, h2, h3, h4]
-  by_cases h5 : version = prevVersion lb.height; rotate_left; · simp [h1, h2, h3, h4, h5]
-  by_cases h6 : type = rootTypeState; rotate_left; · simp [h1, h2, h3, h4, h5, h6]
-  by_cases h7 : hash = lb.appHash; rotate_left; · simp [h1, h2, h3, h4, h5, h6, h7]
-  simp only [h1, h2, h3, h4, h5, h6, h7, ne_eq, not_true_eq_false, if_false, beq_self_eq_true, Bool.true_and]
-  cases hdm : L.decBlockMeta b.metaB with
-  | none => simp
-  | some m =>
-    by_cases h8 : m.header = L.headerEnc lb; rotate_left; · simp [h8]
-    cases hdc : L.decCommit m.lastCommit with
-    | none => simp [h8, hdc]
-    | some c =>
-      by_cases h9 : commitHash L H c = lb.lastCommitHash; rotate_left; · simp [h8, hdc, h9]
-      by_cases h10 : c.sigs = []
-      · simp [h8, hdc, h9, h10]
-      · by_cases h11 : c.height = prev <;> by_cases h12 : c.blockID = lb.lastBlockID <;>
-          simp only [h8, hdc, h9, h10, h11, h12, ne_eq, not_true_eq_false, not_false_eq_true, if_false, if_true,
-            and_false, and_true, and_self, beq_self_eq_true, beq_iff_eq, Bool.and_true, Bool.and_false, Bool.or_true,
-            Bool.or_false, Bool.true_and, Bool.false_and, Bool.and_self, List.isEmpty_iff, reduceCtorEq,
-            Bool.false_eq_true, iff_self, Bool.and_eq_true, Bool.or_eq_true, or_false, false_or]
-
 /-- **block_bound.** An accepted block's height, hash, time (to the second), state root
 (namespace, version, type, hash) and — inside the decoded meta — the serialized header, the
 last commit's hash (signature list) and, for a non-empty commit, the last commit's `height` and
-`blockID` are determined by the light block.  Unbound: `size` (core.go:569 "Block size cannot be
+`blockID` are determined by the light block.  Unbound: `size` (core.go:572 "Block size cannot be
 verified"), the raw `meta` bytes, and the last commit's `round` (`block_lastcommit_round_unbound`). -/
 theorem block_bound (L : Lib Sig Ev P) (H : Bytes → Bytes) (b : Block) (lb : Header)
     (h : verifyBlock L H b lb = .ok) :
@@ -230,44 +199,86 @@ theorem block_bound (L : Lib Sig Ev P) (H : Bytes → Bytes) (b : Block) (lb : H
       L.decCommit m.lastCommit = some c ∧ commitHash L H c = lb.lastCommitHash ∧
       (c.sigs ≠ [] → c.height = lb.height - 1 ∧ c.blockID = lb.lastBlockID) := by
   unfold verifyBlock at h
-  split at h; · cases h
-  rename_i h1
-  split at h; · cases h
-  rename_i h2
-  split at h; · cases h
-  rename_i h3
-  split at h; · cases h
-  rename_i h4
-  split at h; · cases h
-  rename_i h5
-  split at h; · cases h
-  rename_i h6
-  split at h; · cases h
-  rename_i h7
-  split at h
-  · cases h
-  · rename_i m hm
-    split at h; · cases h
-    rename_i h8
-    split at h
-    · cases h
-    · rename_i c hc
-      split at h; · cases h
-      rename_i h9
-      split at h; · cases h
-      rename_i h10
-      split at h; · cases h
-      rename_i h11
-      refine ⟨by simpa using h1, by simpa using h2, by simpa using h3, ?_, m, c, hm, by simpa using h8, hc,
-        by simpa using h9, ?_⟩
+  by_cases h1 : b.height = lb.height; rotate_left
+  · simp only [h1, ne_eq, not_false_eq_true, if_true] at h; cases h
+  simp only [h1, ne_eq, not_true_eq_false, if_false] at h
+  by_cases h2 : b.hash = L.headerHash lb; rotate_left
+  · simp only [h2, not_false_eq_true, if_true] at h; cases h
+  simp only [h2, not_true_eq_false, if_false] at h
+  by_cases h3 : b.time = lb.time.truncSec; rotate_left
+  · simp only [h3, not_false_eq_true, if_true] at h; cases h
+  simp only [h3, not_true_eq_false, if_false] at h
+  by_cases h4 : b.stateRoot.ns = zeroNamespace; rotate_left
+  · simp only [h4, not_false_eq_true, if_true] at h; cases h
+  simp only [h4, not_true_eq_false, if_false] at h
+  by_cases h5 : b.stateRoot.version = prevVersion lb.height; rotate_left
+  · simp only [h5, not_false_eq_true, if_true] at h; cases h
+  simp only [h5, not_true_eq_false, if_false] at h
+  by_cases h6 : b.stateRoot.type = rootTypeState; rotate_left
+  · simp only [h6, not_false_eq_true, if_true] at h; cases h
+  simp only [h6, not_true_eq_false, if_false] at h
+  by_cases h7 : b.stateRoot.hash = lb.appHash; rotate_left
+  · simp only [h7, not_false_eq_true, if_true] at h; cases h
+  simp only [h7, not_true_eq_false, if_false] at h
+  cases hm : L.decBlockMeta b.metaB with
+  | none => simp only [hm] at h; cases h
+  | some m =>
+    simp only [hm] at h
+    by_cases h8 : m.header = L.headerEnc lb; rotate_left
+    · simp only [h8, not_false_eq_true, if_true] at h; cases h
+    simp only [h8, not_true_eq_false, if_false] at h
+    cases hc : L.decCommit m.lastCommit with
+    | none => simp only [hc] at h; cases h
+    | some c =>
+      simp only [hc] at h
+      by_cases h9 : commitHash L H c = lb.lastCommitHash; rotate_left
+      · simp only [h9, not_false_eq_true, if_true] at h; cases h
+      simp only [h9, not_true_eq_false, if_false] at h
+      refine ⟨h1, h2, h3, ?_, m, c, rfl, h8, hc, h9, ?_⟩
       · cases hs : b.stateRoot
         simp only [hs] at h4 h5 h6 h7
         simp only [StateRoot.mk.injEq]
-        exact ⟨by simpa using h4, by simpa using h5, by simpa using h6, by simpa using h7⟩
+        exact ⟨h4, h5, h6, h7⟩
       · intro hne
-        constructor
-        · apply Classical.byContradiction; intro hc'; exact h10 ⟨hne, hc'⟩
-        · apply Classical.byContradiction; intro hc'; exact h11 ⟨hne, hc'⟩
+        by_cases h10 : c.height = lb.height - 1; rotate_left
+        · simp only [hne, h10, not_false_eq_true, and_self, if_true] at h; cases h
+        by_cases h11 : c.blockID = lb.lastBlockID; rotate_left
+        · simp only [hne, h10, h11, not_false_eq_true, not_true_eq_false, and_false, and_self, if_true, if_false] at h
+          cases h
+        exact ⟨h10, h11⟩
+
+/-- `verifyBlock` accepts exactly the blocks that satisfy the executable specification (the
+predicate the driver evaluates on everything the implementation accepted). -/
+theorem block_spec_iff [DecidableEq Sig] (L : Lib Sig Ev P) (H : Bytes → Bytes) (b : Block) (lb : Header) :
+    verifyBlock L H b lb = .ok ↔ blockSpec L H b lb = true := by
+  constructor
+  · intro h
+    have ⟨a1, a2, a3, a4, m, c, a5, a6, a7, a8, a9⟩ := block_bound L H b lb h
+    unfold blockSpec
+    simp only [a1, a2, a3, a4, a5, a6, a7, a8, beq_self_eq_true, Bool.true_and]
+    by_cases hs : c.sigs = []
+    · simp [hs]
+    · have ⟨x1, x2⟩ := a9 hs
+      simp [x1, x2]
+  · intro h
+    unfold blockSpec at h
+    simp only [Bool.and_eq_true, beq_iff_eq] at h
+    obtain ⟨⟨⟨⟨a1, a2⟩, a3⟩, a4⟩, h⟩ := h
+    cases hdm : L.decBlockMeta b.metaB with
+    | none => simp [hdm] at h
+    | some m =>
+      simp only [hdm, Bool.and_eq_true, beq_iff_eq] at h
+      obtain ⟨a6, h⟩ := h
+      cases hdc : L.decCommit m.lastCommit with
+      | none => simp [hdc] at h
+      | some c =>
+        simp only [hdc, Bool.and_eq_true, beq_iff_eq, Bool.or_eq_true, List.isEmpty_iff] at h
+        obtain ⟨a8, a9⟩ := h
+        unfold verifyBlock
+        simp only [a1, a2, a3, a4, hdm, a6, hdc, a8, ne_eq, not_true_eq_false, if_false]
+        rcases a9 with hs | ⟨x1, x2⟩
+        · simp [hs]
+        · simp [x1, x2]
 
 /-- **block_agree.** Two blocks accepted for the same light block agree on height, hash, time,
 state root, the decoded meta header, the list of commit signatures and (non-empty commit) the
@@ -416,7 +427,7 @@ theorem results_bound (L : Lib Sig Ev P) (H : Bytes → Bytes) (lc : LightClient
         subst h
         exact ⟨by simpa using hh, hm', nxt, hn, by simpa using hrh⟩
 
-/-- The documented exception (core.go:600-613): at (or above) the latest trusted height the results
+/-- The documented exception (core.go:613-626): at (or above) the latest trusted height the results
 are accepted as soon as the height matches and the meta decodes — nothing else is bound. -/
 theorem results_latest_unverified (L : Lib Sig Ev P) (H : Bytes → Bytes) (lc : LightClient) (r : BlockResults)
     (lb : Header) (last : Int) (m : ResultsMeta Ev) (hlast : lc.last = some last) (hlatest : last ≤ lb.height)
@@ -426,7 +437,7 @@ theorem results_latest_unverified (L : Lib Sig Ev P) (H : Bytes → Bytes) (lc :
 
 /-- Two results accepted for the same light block below the latest trusted height have the same
 number of transaction results with the same `code`, `data`, `gasWanted`, `gasUsed` — or `H` has a
-collision.  Unbound: `log`, `info`, `codespace`, all events (TODO in core.go:638), the meta bytes. -/
+collision.  Unbound: `log`, `info`, `codespace`, all events (TODO in core.go:651), the meta bytes. -/
 theorem results_agree {H : Bytes → Bytes} {n : Nat} (hl : FixedLen H n) (L : Lib Sig Ev P)
     (hdet : ∀ c d g u c' d' g' u', L.detEnc c d g u = L.detEnc c' d' g' u' → c = c' ∧ d = d' ∧ g = g' ∧ u = u')
     (lc : LightClient) (r₁ r₂ : BlockResults) (lb : Header) (last : Int) (m₁ m₂ : ResultsMeta Ev)
